@@ -413,6 +413,33 @@ theorem sim_times_window {σ : Type} (fx : Bool) (β : Beh σ) (n : Nat) (endT :
       · exact ih _ _ _ hts'
       · simpa using hts'
 
+/-- **an armed wake-up inside the run window is honoured**: if after a completed cycle at `t` some node
+    `j` is armed for `s` with `t < s < end`, then the run continues, the next cycle happens at some
+    `t' ≤ s` (never past `s`), and if `t' = s` node `j` is evaluated in it.  By induction along the
+    run (times strictly increase) the cycle at `s` is reached unless `j`'s slot is re-armed earlier. -/
+theorem armed_wakeup_honoured {σ : Type} (fx : Bool) (β : Beh σ) (n : Nat) (hβ : Disc β n) (endT t : Time)
+    (g : G) (u : σ) (hlen : g.slots.length = n) (hc : g.cursor = 0) (hok : (cycle fx β n t g u).ok = true)
+    (j : Nat) (hjn : j < n) (s : Time) (hs : slotOf (cycle fx β n t g u).g j = s) (hts : t < s) (hse : s < endT) :
+    ∃ t', nextCycle (cycle fx β n t g u).g endT = some t' ∧ t < t' ∧ t' ≤ s ∧
+      (t' = s → (cycle fx β n t' (cycle fx β n t g u).g (cycle fx β n t g u).st).ok = true →
+        j ∈ (cycle fx β n t' (cycle fx β n t g u).g (cycle fx β n t g u).st).evaluated) := by
+  obtain ⟨nx, hnx, hle⟩ := scan_next_lower fx β n hβ t g u hlen hc hok j hjn (by rw [hs]; exact hts)
+  have hgt := cycle_next_gt fx β n hβ t g u hlen hc hok nx hnx
+  rw [hs] at hle
+  refine ⟨nx, ?_, hgt, hle, ?_⟩
+  · unfold nextCycle; rw [hnx]
+    have : ¬ nx ≥ endT := by omega
+    simp [this]
+  · intro heq hok2
+    have hfresh : cycle fx β n t g u =
+        scanFrom β t n 0 { g with now := t, failed := false, next := none, cursor := 0 } u [] := by
+      cases fx <;> simp [cycle, resuming, hc]
+    have hlen1 : (cycle fx β n t g u).g.slots.length = n := by
+      rw [hfresh] at hok ⊢; exact scanFrom_length β n t n 0 _ u [] hlen hok
+    have hc1 : (cycle fx β n t g u).g.cursor = 0 := by
+      rw [hfresh] at hok ⊢; exact scanFrom_cursor_zero β t n 0 _ u [] hok
+    exact due_node_evaluated fx β n hβ nx _ _ hlen1 hc1 j hjn (by rw [hs, heq]) hok2
+
 /-! ## non-vacuity -/
 
 /-- a concrete behaviour that satisfies the discipline: node 0 notifies node 1 in the same cycle and
